@@ -765,6 +765,21 @@ def _lor(a, b):
 def logical_and(x, y): return _ew2(_land, x, y, 'b')
 def logical_or(x, y): return _ew2(_lor, x, y, 'b')
 def logical_xor(x, y): return _ew2(lambda a, b: decide(a) != decide(b), x, y, 'b')
+def isclose(a, b, rtol=Q(1, 100000), atol=Q(1, 100000000), equal_nan=False):
+    if isinstance(rtol, _pyfloat): rtol = A.toQ(rtol)
+    if isinstance(atol, _pyfloat): atol = A.toQ(atol)
+    def f(x, y):
+        x, y = Frac.of(x), Frac.of(y)
+        return AT.absval(x - y) <= atol + rtol * AT.absval(y)
+    return _ew2(f, a, b, 'b')
+def allclose(a, b, rtol=Q(1, 100000), atol=Q(1, 100000000), equal_nan=False):
+    r = isclose(a, b, rtol, atol)
+    for e in r._a.flat:
+        if not decide(e): return False
+    return True
+def _normalize(x, p=2, dim=1, eps=Q(1, 10 ** 12)):
+    n = norm(x, p, dim=dim, keepdim=True)
+    return div(x, clamp(n, min=eps))
 def isnan(x): return _ew1(lambda a: False, x, 'b')
 def isinf(x): return _ew1(lambda a: isinstance(a, Inf), x, 'b')
 def isfinite(x): return _ew1(lambda a: not isinstance(a, Inf), x, 'b')
